@@ -233,47 +233,7 @@ func checkCase(c *Case) error {
 	}
 
 	// ---- single-section xref damage ----
-	type damage struct {
-		name       string
-		data       []byte
-		makeReader bool
-	}
-	var damages []damage
-	junk := func(lo, hi int, name string, mr bool) {
-		if lo < 0 || hi > len(data) || lo >= hi {
-			return
-		}
-		d := append([]byte{}, data...)
-		for i := lo; i < hi; i++ {
-			d[i] = "#junk!"[i%6]
-		}
-		damages = append(damages, damage{name, d, mr})
-	}
-	if f.XRefKind == "table" {
-		// the entries of the table (keep the keyword line out of it: the
-		// keyword itself is the next damage)
-		junk(f.XRef[0]+5, f.XRef[1]-2, "xref table entries overwritten (final EOL kept)", true)
-		junk(f.XRef[0], f.XRef[0]+4, "xref keyword overwritten", true)
-		junk(f.TrailerKeyword[0], f.TrailerKeyword[1], "trailer keyword overwritten", false)
-	} else {
-		xo := f.Objects[f.Sections[0].StreamNum]
-		if xo != nil && xo.IsStream {
-			junk(xo.StreamStart, xo.StreamStart+len(xo.RawStream), "xref stream data overwritten", true)
-		}
-	}
-	// startxref offset replaced by another number of the same length
-	{
-		d := append([]byte{}, data...)
-		i := f.StartXRef + len("startxref")
-		for i < len(d) && (d[i] < '0' || d[i] > '9') {
-			i++
-		}
-		for i < len(d) && d[i] >= '0' && d[i] <= '9' {
-			d[i] = '9' - (d[i] - '0')
-			i++
-		}
-		damages = append(damages, damage{"startxref offset replaced", d, true})
-	}
+	damages := xrefDamages(data, f)
 	for _, dm := range damages {
 		c.damages++
 		label := "damage: " + dm.name
@@ -312,6 +272,54 @@ func checkCase(c *Case) error {
 		}
 	}
 	return nil
+}
+
+type damage struct {
+	name       string
+	data       []byte
+	makeReader bool
+}
+
+// xrefDamages returns copies of data in which one part of the
+// cross-reference information has been overwritten.
+func xrefDamages(data []byte, f *strict.File) []damage {
+	var damages []damage
+	junk := func(lo, hi int, name string, mr bool) {
+		if lo < 0 || hi > len(data) || lo >= hi {
+			return
+		}
+		d := append([]byte{}, data...)
+		for i := lo; i < hi; i++ {
+			d[i] = "#junk!"[i%6]
+		}
+		damages = append(damages, damage{name, d, mr})
+	}
+	if f.XRefKind == "table" {
+		// the entries of the table (keep the keyword line out of it: the
+		// keyword itself is the next damage)
+		junk(f.XRef[0]+5, f.XRef[1]-2, "xref table entries overwritten (final EOL kept)", true)
+		junk(f.XRef[0], f.XRef[0]+4, "xref keyword overwritten", true)
+		junk(f.TrailerKeyword[0], f.TrailerKeyword[1], "trailer keyword overwritten", false)
+	} else {
+		xo := f.Objects[f.Sections[0].StreamNum]
+		if xo != nil && xo.IsStream {
+			junk(xo.StreamStart, xo.StreamStart+len(xo.RawStream), "xref stream data overwritten", true)
+		}
+	}
+	// startxref offset replaced by another number of the same length
+	{
+		d := append([]byte{}, data...)
+		i := f.StartXRef + len("startxref")
+		for i < len(d) && (d[i] < '0' || d[i] > '9') {
+			i++
+		}
+		for i < len(d) && d[i] >= '0' && d[i] <= '9' {
+			d[i] = '9' - (d[i] - '0')
+			i++
+		}
+		damages = append(damages, damage{"startxref offset replaced", d, true})
+	}
+	return damages
 }
 
 // lengthAvailable reports whether the /Length of a stream object can be known
